@@ -30,7 +30,23 @@ pub fn comparable(v: &V, op: BinOp, rhs: &Lit) -> bool {
         },
         BinOp::In => match rhs {
             // membership of a list as a whole in a list of lists is two-valued as well
-            Lit::V(V::List(items)) if matches!(v, V::List(_)) => !items.is_empty() && items.iter().all(|i| matches!(i, V::List(_))),
+            Lit::V(V::List(items)) if matches!(v, V::List(_)) => {
+                let lists = !items.is_empty() && items.iter().all(|i| matches!(i, V::List(_)));
+                // a list of scalars against a list of scalars of the same type is the subset
+                // test: two-valued when the list lies entirely inside (the empty list included)
+                // or entirely outside; a partial overlap is FAIL for `in` and for `not in` alike
+                // (the tool reads `not in` as "no element in") and is not asserted
+                let subset = match v {
+                    V::List(xs) => {
+                        !items.is_empty()
+                            && items.iter().all(|i| i.is_scalar() && i.ty() == items[0].ty())
+                            && xs.iter().all(|x| x.is_scalar() && x.ty() == items[0].ty())
+                            && (xs.iter().all(|x| items.contains(x)) || !xs.iter().any(|x| items.contains(x)))
+                    }
+                    _ => false,
+                };
+                lists || subset
+            }
             Lit::V(V::List(items)) => v.is_scalar() && !items.is_empty() && items.iter().all(|i| i.is_scalar()),
             Lit::V(V::Str(_)) => v.ty() == Ty::Str,
             Lit::V(r) => scalar_same(v, r),
